@@ -535,6 +535,14 @@ ImplError(p, im) ==
               THEN "ImplMismatch"
          ELSE "ok"
 
+\* ints, floats, bools, texts, null, ranges start as 0 / false / "" / null / 0..0, lists empty, options none, any-objects
+\* empty, objects field by field; there is no default function and no default `any`
+RECURSIVE HasDefault(_)
+HasDefault(t) ==
+    CASE t.k \in {"fn", "any", "never"} -> FALSE
+      [] t.k = "obj" -> \A j \in 1..Len(t.fs) : HasDefault(t.fs[j].t)
+      [] OTHER -> TRUE
+
 CheckProgram(p) ==
     LET names == SetToSeq(DOMAIN p.fns)
         ctx0 == [fns |-> [n \in DOMAIN p.fns |-> FnType(p.fns[n])], events |-> [n \in DOMAIN p.fns |-> p.fns[n].event],
@@ -549,6 +557,8 @@ CheckProgram(p) ==
     ELSE IF \E t \in Range1(p.imports.templ) : HostTemplate(t) = NIL THEN Fail("UnknownIdent")
     ELSE IF \E a, b \in 1..Len(p.sings) : a # b /\ p.sings[a].n = p.sings[b].n THEN Fail("DuplicateDef")
     ELSE IF \E j \in 1..Len(p.sings) : TypeError(p.sings[j].t) # "ok" THEN Fail("UnknownType")
+    \* a singleton the host does not provide starts as the default value of its type: the type must have one
+    ELSE IF \E j \in 1..Len(p.sings) : ~HasDefault(p.sings[j].t) THEN Fail("NoDefaultValue")
     ELSE IF badimpl # {} THEN Fail("ImplMismatch")
     ELSE LET g == CheckGlobals(p, ctx0, 1, Res("ok", TNull, FALSE, FALSE, senv, <<>>)) IN
          IF g.c # "ok" THEN g
